@@ -4,7 +4,7 @@
 From Coq Require Import Strings.String Strings.Byte.
 From Coq Require Import List Arith NArith ZArith Bool.
 From PV Require Import Base.Bytes Base.Outcome Base.KV Compkey.Model Aol.Model Valid.Aol Bank.Model Did.Model Pnft.Model.
-From PV Require Generated.GenConst Generated.GenNft.
+From PV Require Generated.GenConst Generated.GenNft Generated.GenApp.
 Import ListNotations.
 
 (** ** messages *)
@@ -33,6 +33,7 @@ Inductive base_msg :=
 | BDid (m : did_msg)
 | BPnft (m : pnft_msg)
 | BSend (from to : bytes) (amt : coins)
+| BVest (from to : bytes) (amt : coins) (end_time : Z)          (* vesting MsgCreateVestingAccount, delayed *)
 | BGrant (granter grantee type_url : bytes) (expiration : option Z)
 | BRevoke (granter grantee type_url : bytes).
 
@@ -61,7 +62,8 @@ Definition with_grants (c : chain) (g : list grant) : chain :=
   {| c_aol := c_aol c; c_did := c_did c; c_pnft := c_pnft c; c_bank := c_bank c; c_grants := g |}.
 
 Definition empty_chain : chain :=
-  {| c_aol := []; c_did := []; c_pnft := []; c_bank := {| balances := []; supply := [] |}; c_grants := [] |}.
+  {| c_aol := []; c_did := []; c_pnft := []; c_bank := {| balances := []; supply := []; vestings := []; accounts := [] |};
+     c_grants := [] |}.
 
 (** what the environment supplies to a block: bech32 decoding, block time, module addresses *)
 Record env := {
@@ -93,6 +95,7 @@ Definition type_url (m : base_msg) : bytes :=
   | BPnft (PTransfer _ _ _ _) => GenNft.url_pnft_transfer
   | BPnft (PBurn _ _ _) => GenNft.url_pnft_burn
   | BSend _ _ _ => GenConst.url_bank_send
+  | BVest _ _ _ _ => GenApp.url_vesting_create
   | BGrant _ _ _ _ => GenConst.url_authz_grant
   | BRevoke _ _ _ => GenConst.url_authz_revoke
   end.
@@ -139,6 +142,11 @@ Section WithEnv.
         do _ <- validate_addr unbech f;
         do _ <- validate_addr unbech t;
         if coins_valid amt then Ok tt else Err cs_sdk 10
+    | BVest f t amt end_time =>
+        do _ <- validate_addr unbech f;
+        do _ <- validate_addr unbech t;
+        if negb (coins_valid amt) then Err cs_sdk 10
+        else if (end_time <=? 0)%Z then Err cs_sdk 18 else Ok tt
     | BGrant g r _ _ =>
         match unbech g, unbech r with
         | Some ga, Some ra => if bytes_eqb ga ra then Err cs_authz 7 else Ok tt
@@ -185,7 +193,7 @@ Section WithEnv.
     | BPnft (PCreateDenom _ _ _ _ _ _ s _) | BPnft (PUpdateDenom _ _ _ _ _ _ s _) | BPnft (PDeleteDenom _ s)
     | BPnft (PTransferDenom _ s _) | BPnft (PMint _ _ _ _ _ _ _ s) | BPnft (PTransfer _ _ s _) | BPnft (PBurn _ _ s) =>
         do a <- addr_or_panic s; Ok [a]
-    | BSend f _ _ => do a <- addr_or_panic f; Ok [a]
+    | BSend f _ _ | BVest f _ _ _ => do a <- addr_or_panic f; Ok [a]
     | BGrant g _ _ _ | BRevoke g _ _ => do a <- addr_or_panic g; Ok [a]
     end.
 
@@ -273,10 +281,27 @@ Section WithEnv.
         match unbech f, unbech t with
         | Some fa, Some ta =>
             if mem_bytes ta (e_blocked e) then Err cs_sdk 4
-            else match send (c_bank c) fa ta amt with
+            else match send (c_bank c) (e_now e) fa ta amt with
                  | Some bk => Ok (with_bank c bk, [])
                  | None => Err cs_sdk 5
                  end
+        | _, _ => err_invalid_address
+        end
+    | BVest f t amt end_time =>
+        (* x/auth/vesting msgServer.CreateVestingAccount (delayed): the target must not exist and not be blocked *)
+        match unbech f, unbech t with
+        | Some fa, Some ta =>
+            if mem_bytes ta (e_blocked e) then Err cs_sdk 4
+            else if account_exists (c_bank c) ta then Err cs_sdk 18
+            else
+              let bk0 := c_bank c in
+              let bk1 := {| balances := balances bk0; supply := supply bk0;
+                            vestings := {| v_addr := ta; v_amount := amt; v_end := end_time |} :: vestings bk0;
+                            accounts := ta :: accounts bk0 |} in
+              match send bk1 (e_now e) fa ta amt with
+              | Some bk => Ok (with_bank c bk, [])
+              | None => Err cs_sdk 5
+              end
         | _, _ => err_invalid_address
         end
     | BGrant g r u exp =>
@@ -284,8 +309,9 @@ Section WithEnv.
         | Some ga, Some ra =>
             let expired := match exp with Some t => (t <=? e_now e)%Z | None => false end in
             if expired then Err cs_authz 3
-            else Ok (with_grants c ({| gr_granter := ga; gr_grantee := ra; gr_url := u; gr_exp := exp |}
-                                      :: remove_grant (c_grants c) ga ra u), [])
+            else Ok (with_bank (with_grants c ({| gr_granter := ga; gr_grantee := ra; gr_url := u; gr_exp := exp |}
+                                                  :: remove_grant (c_grants c) ga ra u))
+                               (add_account (c_bank c) ra), [])
         | _, _ => err_invalid_address
         end
     | BRevoke g r u =>
@@ -357,7 +383,7 @@ Section WithEnv.
         if list_bytes_eqb (tx_signed_by t) (payer :: rest) then
           match tx_fee t with
           | [] => Some c
-          | fee => match send (c_bank c) payer (e_fee_collector e) fee with
+          | fee => match send (c_bank c) (e_now e) payer (e_fee_collector e) fee with
                    | Some bk => Some (with_bank c bk)
                    | None => None
                    end
@@ -419,7 +445,32 @@ End ExportImport.
 Definition begin_block (e : env) (c : chain) : chain :=
   with_grants c (filter (fun g => match gr_exp g with Some t => negb (t <=? e_now e)%Z | None => true end) (c_grants c)).
 
-Definition end_block (e : env) (c : chain) : chain := c.   (* x/burn is added in Burn/Model.v *)
+(** x/burn EndBlock: move the spendable coins of the burn address to the burn module account and burn them
+    there; any error is only logged.  bank.BurnCoins panics if the module account lacks the Burner permission
+    ([GenApp.burn_has_burner], regenerated from maccPerms). *)
+Definition burn_end_block (now : Z) (bk : bank) : outcome bank :=
+  let cs := spendable_coins bk now GenApp.burn_address in
+  match cs with
+  | [] => Ok bk
+  | _ =>
+      match send bk now GenApp.burn_address GenApp.burn_module_account cs with
+      | None => Ok bk                                   (* logged, nothing burned *)
+      | Some bk1 =>
+          if negb GenApp.burn_has_burner then Panic
+          else match burn_from bk1 GenApp.burn_module_account cs with
+               | Some bk2 => Ok bk2
+               | None => Ok bk1
+               end
+      end
+  end.
+
+Definition end_block (e : env) (c : chain) : chain :=
+  if GenApp.burn_in_end_blockers then
+    match burn_end_block (e_now e) (c_bank c) with
+    | Ok bk => with_bank c bk
+    | _ => c                                            (* a panic halts the chain: see C07_never_halts *)
+    end
+  else c.
 
 Fixpoint deliver_txs (e : env) (c : chain) (ts : list tx) : chain * list tx_result :=
   match ts with
